@@ -157,7 +157,7 @@ KNOWN = {"F3": tmpl_python.known_f3, "F4": known_f4}
 
 
 def units(tier, seed):
-    return tmpl_placeholder.units_for("C09", tier) + tmpl_python.units_for("C09", tier) + [Unit(
+    return tmpl_placeholder.units_for("C09", tier) + tmpl_python.units_for("C09", tier) + tmpl_python.process_units("C09", tier) + [Unit(
         name="c09.python_dot_notation_hack",
         functions=["sqlfluff.core.templaters.python.PythonTemplater.process.render_func (re.sub pattern read from the AST)"],
         bounds={"format strings": "over {a,b,space,.,:,x,{,},!,r,s,>,3}, length <= 8 (Q1) / <= 10 (Q2)"},
